@@ -138,6 +138,9 @@ func genC18(r *vh.Rand, idx int) c18Spec {
 			op.Op = "remove"
 		case x < 11:
 			op.Op = "update"
+			if x == 10 && r.Bool() {
+				op.Op = "replace" // the resource is registered anew under its URI: announced by list_changed only
+			}
 		case x < 13:
 			op.Op = "sub"
 		case x < 14:
@@ -246,6 +249,10 @@ type c18Change struct {
 	idx               int // index into sets[listKind]
 	t                 int64
 	seqStart, seqDone int64
+	// a resource re-registered under its URI (Server.AddResource replacing it): the list keeps its names, a read of
+	// that URI returns replNonce or more from then on
+	replURI   string
+	replNonce int
 }
 
 type c18Update struct {
@@ -802,6 +809,22 @@ func runC18(c *vh.Case, spec c18Spec) *c18World {
 			w.sets[op.Kind] = append(w.sets[op.Kind], c18Join(w.cur[op.Kind]))
 			e2 := log.Add("change-done", "kind", op.Kind, "idx", len(w.sets[op.Kind])-1)
 			w.changes = append(w.changes, c18Change{listKind: op.Kind, idx: len(w.sets[op.Kind]) - 1, t: e1.T, seqStart: e1.Seq, seqDone: e2.Seq})
+			w.mu.Unlock()
+		case "replace":
+			changeSem <- struct{}{}
+			defer func() { <-changeSem }()
+			uri := c18URIs[op.URI]
+			w.mu.Lock()
+			w.nextNonce++
+			nonce := w.nextNonce
+			w.counters[uri] = nonce // what a read returns once the new registration is in place
+			w.mu.Unlock()
+			e1 := log.Add("change-start", "kind", "resources", "op", "replace", "name", uri)
+			server.AddResource(&mcp.Resource{Name: strings.TrimPrefix(uri, "file:///"), URI: uri}, readHandler)
+			w.mu.Lock()
+			w.sets["resources"] = append(w.sets["resources"], c18Join(w.cur["resources"]))
+			e2 := log.Add("change-done", "kind", "resources", "idx", len(w.sets["resources"])-1)
+			w.changes = append(w.changes, c18Change{listKind: "resources", idx: len(w.sets["resources"]) - 1, t: e1.T, seqStart: e1.Seq, seqDone: e2.Seq, replURI: uri, replNonce: nonce})
 			w.mu.Unlock()
 		case "update":
 			changeSem <- struct{}{}
@@ -1362,6 +1385,27 @@ func decideC18(c *vh.Case, spec c18Spec, w *c18World) {
 		if r.counter < need {
 			c.Violate("stale-read-after-notification", "session %d: a read of %s issued after the client handled the update with counter %d returned counter %d", r.sess, r.uri, need, r.counter)
 			return
+		}
+		// ... and the same for a resource that was registered anew: that is announced by resources/list_changed
+		lcM := c18Method("resources")
+		need2 := 0
+		for pos, a := range rt.recvs[lcM] {
+			if a.handledSeq == 0 || a.handledSeq > r.seqIssue {
+				continue
+			}
+			ci := coverIdx(rt, spec.Sessions[r.sess].Kind == "mem", lcM, "resources", pos, a)
+			for _, ch := range w.changes {
+				if ch.listKind == "resources" && ch.replURI == r.uri && ch.idx <= ci && ch.replNonce > need2 {
+					need2 = ch.replNonce
+				}
+			}
+		}
+		if r.counter < need2 {
+			c.Violate("stale-read-after-list-changed", "session %d (%s, ttl %d ms): a read of %s issued after the client handled a resources/list_changed notification that was sent after the resource had been registered anew (counter %d) returned the older content (counter %d)", r.sess, spec.Sessions[r.sess].Version, spec.TTLms, r.uri, need2, r.counter)
+			return
+		}
+		if need2 > 0 {
+			c.Count("reads_after_replacement", 1)
 		}
 	}
 	c.Count("changes", len(w.changes))
